@@ -223,6 +223,101 @@ def rule_u4(ctx):
     ctx.check(ok, "U4-mexpr-quoted", f"{LANG}:ISLaUnparser._unparse_match_expr", '="<mexpr>"', site(up), "match expression must be written as =\"...\"", "quoted")
 
 
+def rule_u11(ctx):
+    """Writers must not render text with a Python codec/repr escape (unicode_escape, ascii(), repr()): it produces \\uXXXX, \\UXXXXXXXX, \\' ... which none of
+    the ISLa readers (ESC token `\\[btnr"\\]`, instantiate_escaped_symbols: \\b \\t \\n \\r \\" \\xNN) understands.  Expected count on today's tree: zero."""
+    m = ctx.repo.module(LANG, "C07.U11")
+
+    def is_writer(q: str) -> bool:
+        last = q.split(".")[-1]
+        return last == "__str__" or last.startswith("_unparse") or last.startswith("unparse") or q.startswith("ISLaUnparser.") or "escape" in last
+
+    def scan(fn, construct):
+        hits = []
+        for c in calls_in(fn):
+            if isinstance(c.func, ast.Attribute) and c.func.attr == "encode" and c.args and isinstance(c.args[0], ast.Constant) and c.args[0].value in ("unicode_escape", "unicode-escape", "raw_unicode_escape"):
+                hits.append(c)
+            elif isinstance(c.func, ast.Attribute) and c.func.attr == "encode" and any(k.arg == "errors" and isinstance(k.value, ast.Constant) and k.value.value in ("backslashreplace", "namereplace", "xmlcharrefreplace") for k in c.keywords):
+                hits.append(c)
+            elif call_name(c) == "ascii":
+                hits.append(c)
+        return hits
+
+    n = 0
+    for q, fn in m.functions():
+        if not isinstance(fn, ast.FunctionDef) or not is_writer(q):
+            continue
+        n += 1
+        for c in scan(fn, q):
+            ctx.viol("U11-codec-escape", f"{LANG}:{q}", f"{src(c)[:60]}", site(c),
+                     f"the writer renders text with a Python escape codec (`{src(c)[:60]}`): characters above U+00FF come out as \\uXXXX / \\UXXXXXXXX, which the ISLa readers do not unescape "
+                     "(a match expression with '€' unparses to text that parses to a different constraint)")
+    ctx.inventory["writer_functions_scanned_for_codec_escapes"] = n
+    if n < 15:
+        raise Unrecognised("C07.U11", LANG, f"only {n} writer functions found")
+    fx = ast.parse("class X:\n    def __str__(self):\n        return self.t.encode('unicode_escape').decode('ascii')\n")
+    if len(scan(fx.body[0].body[0], "fixture")) != 1:
+        raise Unrecognised("C07.U11", "fixture", "positive fixture did not fire")
+    ctx.ok("U11-codec-escape", f"{LANG}:<writers>", "no Python escape codec in writer functions", f"{LANG}:0", f"{n} writer functions scanned; fixture fires")
+
+
+def rule_u12(ctx):
+    """Predicate arguments: the reader yields int for INT tokens and str (quotes stripped) for STRING tokens, variables otherwise; the writers must quote
+    exactly the str arguments.  Decided by evaluating the writer's conditional over the four argument kinds."""
+    rd = ctx.repo.func(LANG, "ISLaEmitter.exitPredicateArg", "C07.U12")
+    t = " ".join(src(rd).split())
+    ok = "elif ctx.INT(): self.predicate_args[ctx] = int(parse_tree_text(ctx))" in t and "elif ctx.STRING(): self.predicate_args[ctx] = parse_tree_text(ctx)[1:-1]" in t
+    if not ok:
+        raise Unrecognised("C07.U12", f"{LANG}:ISLaEmitter.exitPredicateArg", "reader's INT -> int / STRING -> str[1:-1] mapping not in the recognised shape")
+    kinds = {"str": {"str"}, "int": {"int"}, "Variable": {"Variable", "BoundVariable", "Constant", "DummyVariable"}, "DerivationTree": {"DerivationTree"}}
+
+    def truth(test: ast.expr, kind: str, var: str):
+        if isinstance(test, ast.Call) and call_name(test) == "isinstance" and len(test.args) == 2 and src(test.args[0]) == var:
+            tys = test.args[1].elts if isinstance(test.args[1], ast.Tuple) else [test.args[1]]
+            names = {src(x) for x in tys}
+            if names - {"str", "int", "Variable", "BoundVariable", "Constant", "DerivationTree", "language.Variable"}:
+                return None
+            if kind == "Variable":
+                return bool(names & {"Variable", "language.Variable"})  # a plain Variable is an instance of Variable only
+            return kind in names
+        if isinstance(test, ast.UnaryOp) and isinstance(test.op, ast.Not):
+            v = truth(test.operand, kind, var)
+            return None if v is None else not v
+        if isinstance(test, ast.BoolOp):
+            vs = [truth(v, kind, var) for v in test.values]
+            if any(v is None for v in vs):
+                return None
+            return all(vs) if isinstance(test.op, ast.And) else any(vs)
+        return None
+
+    def render(e: ast.expr, kind: str, var: str):
+        if isinstance(e, ast.IfExp):
+            v = truth(e.test, kind, var)
+            if v is None:
+                return None
+            return render(e.body if v else e.orelse, kind, var)
+        if isinstance(e, ast.JoinedStr):
+            lits = [p.value for p in e.values if isinstance(p, ast.Constant)]
+            return "quoted" if lits and lits[0].startswith('"') and lits[-1].endswith('"') else "plain"
+        return "plain"
+
+    for cls in ("StructuralPredicateFormula", "SemanticPredicateFormula"):
+        f = ctx.repo.func(LANG, f"{cls}.__str__", "C07.U12")
+        construct = f"{LANG}:{cls}.__str__"
+        comps = [x for x in ast.walk(f) if isinstance(x, ast.ListComp) and len(x.generators) == 1 and src(x.generators[0].iter) == "self.args"]
+        if len(comps) != 1:
+            raise Unrecognised("C07.U12", construct, "argument rendering comprehension not found")
+        var = src(comps[0].generators[0].target)
+        for kind in kinds:
+            r = render(comps[0].elt, kind, var)
+            if r is None:
+                raise Unrecognised("C07.U12", construct, f"rendering of {kind} arguments not understood: {src(comps[0].elt)[:80]}")
+            want = "quoted" if kind == "str" else "plain"
+            ctx.check(r == want, "U12-predicate-arg-kinds", construct, f"{kind} argument rendered {want}", site(comps[0]),
+                      f"a predicate argument of kind {kind} is rendered {r}: the reader turns a quoted argument into a str and an unquoted number into an int, so e.g. nth(1, v, a) "
+                      "unparses to nth(\"1\", v, a), which parses to a different (unequal) formula", f"{want}")
+
+
 def rule_u5(ctx):
     m = ctx.repo.module(LANG, "C07.U5")
     need = {
@@ -471,6 +566,12 @@ def run(ctx) -> str:
     from . import c05
 
     ctx.guarded("U10", lambda: c05.rule_r9(ctx, "U10", only_functions={"smt_expr_to_str"}))
+    ctx.guarded("U11", lambda: rule_u11(ctx))
+    ctx.guarded("U12", lambda: rule_u12(ctx))
+    from . import c11
+
+    # match-expression text is unescaped by helpers.instantiate_escaped_symbols: its recognised algorithm (placeholder freshness, table, order) is shared with C11
+    ctx.guarded("U13", lambda: c11.rule_b1(ctx))
     ctx.assume("generated parser/lexer files under src/isla/isla_language are in sync with IslaLanguage.g4 (literalNames cross-checked)")
     ctx.assume("ANTLR runtime member names are read from the installed antlr4 package sources")
     return EXPLANATION
